@@ -173,6 +173,12 @@ def exception_name(node: ast.AST | None) -> str | None:
     if isinstance(node, ast.Raise):
         exc = node.exc
         if exc is None:
+            # a bare raise re-raises what the enclosing handler caught
+            cur = getattr(node, '_parent', None)
+            while cur is not None and not isinstance(cur, (ast.ExceptHandler, ast.FunctionDef, ast.Lambda)):
+                cur = getattr(cur, '_parent', None)
+            if isinstance(cur, ast.ExceptHandler) and isinstance(cur.type, (ast.Name, ast.Attribute)):
+                return cur.type.id if isinstance(cur.type, ast.Name) else cur.type.attr
             return '<reraise>'
         if isinstance(exc, ast.Call):
             exc = exc.func
